@@ -3,10 +3,11 @@
 package jobs
 
 import (
-	"time"
 	"context"
 	"errors"
 	"strconv"
+	"sync"
+	"time"
 
 	"github.com/DataDog/datadog-go/v5/statsd"
 
@@ -32,13 +33,13 @@ func vRunner(hub *server.VHub, poolFull, poolIncr int) *Runner {
 // last batch an empty batch with the final token is delivered (as the dataset
 // source does when nothing is left).
 type vSource struct {
-	batches  [][]*server.Entity
-	failAt   int // ReadEntities returns an error before delivering batch failAt (-1: never)
-	reads    int
-	fsStart  int
-	fsEnd    int
-	emitted  []int // indices of batches handed to the pipeline
-	oneShot  bool  // deliver one batch per ReadEntities call (like DatasetSource)
+	batches [][]*server.Entity
+	failAt  int // ReadEntities returns an error before delivering batch failAt (-1: never)
+	reads   int
+	fsStart int
+	fsEnd   int
+	emitted []int // indices of batches handed to the pipeline
+	oneShot bool  // deliver one batch per ReadEntities call (like DatasetSource)
 }
 
 func (s *vSource) GetConfig() map[string]interface{} {
@@ -69,6 +70,10 @@ type vTransform struct {
 	ended int
 	fail  bool
 	modes []int // per call mode (overrides mode when set)
+	// modeOf: mode by the id of the first entity of the call (overrides both; for runs whose
+	// pages are split over parallel workers, where the call number does not tell the page)
+	modeOf  map[string]int
+	mu      sync.Mutex
 	created []*server.Entity
 	// slowHead: natively, the call that is handed the first source entity takes longer than the
 	// others, so that a later chunk's worker finishes first (under gosx the completion order of
@@ -76,12 +81,17 @@ type vTransform struct {
 	slowHead *server.Entity
 }
 
-func (t *vTransform) GetConfig() map[string]interface{} { return map[string]interface{}{"Type": "VerifTransform"} }
-func (t *vTransform) getParallelism() int               { return t.par }
-func (t *vTransform) EndStoreContext(string) error      { t.ended++; return nil }
+func (t *vTransform) GetConfig() map[string]interface{} {
+	return map[string]interface{}{"Type": "VerifTransform"}
+}
+func (t *vTransform) getParallelism() int          { return t.par }
+func (t *vTransform) EndStoreContext(string) error { t.ended++; return nil }
 func (t *vTransform) transformEntities(runner *Runner, entities []*server.Entity, jobTag string) ([]*server.Entity, error) {
+	t.mu.Lock()
 	t.calls++
+	calls := t.calls
 	t.seen = append(t.seen, entities...)
+	t.mu.Unlock()
 	if t.slowHead != nil && len(entities) > 0 && entities[0] == t.slowHead {
 		time.Sleep(40 * time.Millisecond)
 	}
@@ -89,8 +99,11 @@ func (t *vTransform) transformEntities(runner *Runner, entities []*server.Entity
 		return nil, errors.New("transform failure")
 	}
 	mode := t.mode
-	if t.calls-1 < len(t.modes) {
-		mode = t.modes[t.calls-1]
+	if calls-1 < len(t.modes) {
+		mode = t.modes[calls-1]
+	}
+	if t.modeOf != nil && len(entities) > 0 {
+		mode = t.modeOf[entities[0].ID]
 	}
 	switch mode {
 	case 1:
@@ -104,8 +117,10 @@ func (t *vTransform) transformEntities(runner *Runner, entities []*server.Entity
 	case 3:
 		// grows the slice it was handed and returns it (what a JavaScript transform does
 		// with entities.push(x)): one created entity per call
-		created := server.NewEntity("ns0:created"+strconv.Itoa(t.calls), 0)
+		created := server.NewEntity("ns0:created"+strconv.Itoa(calls), 0)
+		t.mu.Lock()
 		t.created = append(t.created, created)
+		t.mu.Unlock()
 		return append(entities, created), nil
 	}
 	return entities, nil
